@@ -164,6 +164,7 @@ pub fn render(v: &Val, ctx: &mut Ctx) -> TokenStream {
                 }
             }
             if (what == "call Index::from" || what == "call Index :: from") && deps.len() == 1 { return render(&deps[0], ctx); }
+            if what == "call Ident::new" && !deps.is_empty() { return std::iter::once(ident(&text_of(&deps[0], ctx))).collect(); }
             if what.starts_with("unwrapped") || what.starts_with("Ok.") { if let Some(d) = deps.first() { return render(d, ctx); } }
             if what == "replace_tokens" && deps.len() == 3 {
                 let k = render(&deps[0], ctx);
